@@ -8,11 +8,13 @@ Open Scope Z_scope.
 
 Record pobs := { po_id : Z; po_status : Z; po_exp : bool; po_total : Z; po_deps : list (Z * Z);
                  po_vend : Z; po_tally : list Z }.
+(* ob_fx: what executed proposal messages left in other modules, as far as the harness can read it
+   back: [parity of the erc20 pair's enabled flag; crosschain eth AverageBlockTime] *)
 Record obs := { ob_res : Z; ob_props : list pobs; ob_gov : Z; ob_bals : list (Z * Z);
-                ob_inactive : list Z; ob_active : list Z }.
+                ob_inactive : list Z; ob_active : list Z; ob_fx : list Z }.
 
 Record gov_case := { gc_fixed : bool; gc_params : params; gc_bals : list (Z * Z);
-                     gc_custom : list (Z * cparams); gc_steps : list (op * obs) }.
+                     gc_custom : list (Z * cparams); gc_abt0 : Z; gc_steps : list (op * obs) }.
 
 Definition mk_params (mind expd maxdep vp evp q th eth veto mir mdr cr : Z) (cd : dest)
            (bp bq bv : bool) : params :=
@@ -26,11 +28,18 @@ Definition mk_stk (v d : list (Z * Z * Z)) (tb : Z) : staking :=
   {| st_vals := v; st_dels := d; st_total_bonded := tb |}.
 Definition mk_pobs (id st : Z) (e : bool) (tot : Z) (deps : list (Z * Z)) (vend : Z) (t : list Z) : pobs :=
   {| po_id := id; po_status := st; po_exp := e; po_total := tot; po_deps := deps; po_vend := vend; po_tally := t |}.
-Definition mk_obs (r : Z) (ps : list pobs) (g : Z) (b : list (Z * Z)) (ia ac : list Z) : obs :=
-  {| ob_res := r; ob_props := ps; ob_gov := g; ob_bals := b; ob_inactive := ia; ob_active := ac |}.
-Definition mk_gov_case (fixed : bool) (P : params) (b : list (Z * Z)) (c : list (Z * cparams))
+Definition mk_obs (r : Z) (ps : list pobs) (g : Z) (b : list (Z * Z)) (ia ac fxs : list Z) : obs :=
+  {| ob_res := r; ob_props := ps; ob_gov := g; ob_bals := b; ob_inactive := ia; ob_active := ac; ob_fx := fxs |}.
+Definition mk_gov_case (fixed : bool) (P : params) (b : list (Z * Z)) (c : list (Z * cparams)) (abt0 : Z)
            (st : list (op * obs)) : gov_case :=
-  {| gc_fixed := fixed; gc_params := P; gc_bals := b; gc_custom := c; gc_steps := st |}.
+  {| gc_fixed := fixed; gc_params := P; gc_bals := b; gc_custom := c; gc_abt0 := abt0; gc_steps := st |}.
+
+(* effect tags used by the harness: 400000.. = one ToggleTokenConversion of the registered pair,
+   5000..7999 = crosschain MsgUpdateParams setting AverageBlockTime to the tag *)
+Definition toggle_parity (e : list Z) : Z :=
+  Z.of_nat (length (filter (fun t => (400000 <=? t) && (t <? 500000)) e)) mod 2.
+Definition last_abt (abt0 : Z) (e : list Z) : Z :=
+  match filter (fun t => (5000 <=? t) && (t <? 8000)) e with t :: _ => t | [] => abt0 end.
 
 Definition ecode_num (e : ecode) : Z :=
   match e with
@@ -57,13 +66,14 @@ Definition project_prop (p : proposal) : pobs :=
      po_vend := match p_status p with SDeposit => 0 | _ => p_vend p end;
      po_tally := [t_yes (p_tally p); t_abstain (p_tally p); t_no (p_tally p); t_veto (p_tally p)] |}.
 
-Definition project (r : result) (s : state) (accts : list Z) : obs :=
+Definition project (abt0 : Z) (r : result) (s : state) (accts : list Z) : obs :=
   {| ob_res := result_num r;
      ob_props := map project_prop (filter (fun p => negb (is_removed (p_status p))) (props s));
      ob_gov := gov_bal s;
      ob_bals := map (fun a => (a, bal s a)) accts;
      ob_inactive := map snd (inactive_queue (props s));
-     ob_active := map snd (active_queue (props s)) |}.
+     ob_active := map snd (active_queue (props s));
+     ob_fx := [toggle_parity (ext s); last_abt abt0 (ext s)] |}.
 
 Fixpoint list_eqb {A} (e : A -> A -> bool) (a b : list A) : bool :=
   match a, b with
@@ -79,36 +89,36 @@ Definition pobs_eqb (a b : pobs) : bool :=
 Definition obs_eqb (a b : obs) : bool :=
   (ob_res a =? ob_res b) && list_eqb pobs_eqb (ob_props a) (ob_props b) && (ob_gov a =? ob_gov b)
   && list_eqb pair_eqb (ob_bals a) (ob_bals b) && list_eqb Z.eqb (ob_inactive a) (ob_inactive b)
-  && list_eqb Z.eqb (ob_active a) (ob_active b).
+  && list_eqb Z.eqb (ob_active a) (ob_active b) && list_eqb Z.eqb (ob_fx a) (ob_fx b).
 
 Definition bal_of_list (l : list (Z * Z)) : Z -> Z := fun a => amount_of a l.
 
 (* index of the first step whose observation differs from the model (-1: none) *)
-Fixpoint first_bad (P : params) (kf : keyfun) (s : state) (i : Z) (st : list (op * obs)) : Z :=
+Fixpoint first_bad (P : params) (kf : keyfun) (abt0 : Z) (s : state) (i : Z) (st : list (op * obs)) : Z :=
   match st with
   | [] => -1
   | (o, ob) :: r =>
       let '(res, s', _) := step P kf s o in
-      if obs_eqb (project res s' (map fst (ob_bals ob))) ob then first_bad P kf s' (i + 1) r else i
+      if obs_eqb (project abt0 res s' (map fst (ob_bals ob))) ob then first_bad P kf abt0 s' (i + 1) r else i
   end.
 
 Definition gov_first_bad (c : gov_case) : Z :=
-  first_bad (gc_params c) (if gc_fixed c then kf_fixed else kf_code)
+  first_bad (gc_params c) (if gc_fixed c then kf_fixed else kf_code) (gc_abt0 c)
             (init (bal_of_list (gc_bals c)) (gc_custom c)) 0 (gc_steps c).
 
 Definition gov_mismatch (c : gov_case) : bool := negb (gov_first_bad c =? -1).
 
 (* for debugging a mismatch by hand: what the model shows after step i *)
-Fixpoint model_obs_at (P : params) (kf : keyfun) (s : state) (i : nat) (st : list (op * obs)) : option obs :=
+Fixpoint model_obs_at (P : params) (kf : keyfun) (abt0 : Z) (s : state) (i : nat) (st : list (op * obs)) : option obs :=
   match st with
   | [] => None
   | (o, ob) :: r =>
       let '(res, s', _) := step P kf s o in
       match i with
-      | O => Some (project res s' (map fst (ob_bals ob)))
-      | S j => model_obs_at P kf s' j r
+      | O => Some (project abt0 res s' (map fst (ob_bals ob)))
+      | S j => model_obs_at P kf abt0 s' j r
       end
   end.
 Definition gov_model_obs (c : gov_case) (i : nat) : option obs :=
-  model_obs_at (gc_params c) (if gc_fixed c then kf_fixed else kf_code)
+  model_obs_at (gc_params c) (if gc_fixed c then kf_fixed else kf_code) (gc_abt0 c)
                (init (bal_of_list (gc_bals c)) (gc_custom c)) i (gc_steps c).
